@@ -115,8 +115,25 @@ fn probes(alpha_name: &str, alpha: &[Input]) -> Option<Vec<Vec<usize>>> {
         "bits" => Some((0..2048usize).map(|v| (0..11).map(|i| (v >> i) & 1).collect()).collect()),
         // scancode decoders: every pair of bytes
         "bytes" => Some((0..65536usize).map(|v| vec![v & 255, v >> 8]).collect()),
-        // event stage: every single input (the recording layout shows modifiers, mode and layout)
-        "events" | "kbevents" | "anyevents" => Some((0..alpha.len()).map(|i| vec![i]).collect()),
+        // event stage: the recording layout shows modifiers, mode and layout on any plain key press, so a
+        // few dozen single inputs identify the state: both events of every modifier / lock key, a letter, a
+        // digit, a numpad key, every third remaining input, and all the non-key inputs
+        "events" | "kbevents" | "anyevents" => {
+            use pc_keyboard::KeyCode as K;
+            let special = [K::LShift, K::RShift, K::LControl, K::RControl, K::LAlt, K::RAltGr, K::RControl2, K::CapsLock,
+                           K::NumpadLock, K::A, K::Key3, K::Numpad7, K::PauseBreak, K::RAlt2];
+            let mut v: Vec<Vec<usize>> = Vec::new();
+            for (i, inp) in alpha.iter().enumerate() {
+                let keep = match inp {
+                    Input::Key(k, st) => special.contains(k) || (*st == KeyState::Down && (*k as u8) % 9 == 0),
+                    _ => true,
+                };
+                if keep {
+                    v.push(vec![i]);
+                }
+            }
+            Some(v)
+        }
         _ => None,
     }
 }
